@@ -141,7 +141,7 @@ theorem EvalRes.trans {P : Prog} {B : List NodeId} {bp : NodeId → Prop} {s s1 
       · exact Or.inl ⟨d1, hd1, hk1.trans hk⟩
       · exact Or.inr ⟨rd, List.mem_append_left _ hrd, hk1.trans hk⟩
     · exact Or.inr ⟨rd, List.mem_append_right _ hrd, hk⟩
-
+  · rw [h2.order, h1.order, List.map_append, pushAll_append]
 
 theorem keyObs_isSome {σ : Srcs} {m : Maps} {k : Key} {nd : SrcNode} (h : alookup σ k = some nd) :
     (keyObs σ m k).1.isSome = true := by simp [keyObs, h]
